@@ -64,27 +64,21 @@ func NewTrailingWhitespaceRule() *TrailingWhitespaceRule {
 func (r *TrailingWhitespaceRule) Check(ctx *linter.Context) ([]linter.Violation, error) {
 	violations := []linter.Violation{}
 
+	m := linter.LexMap(strings.Join(ctx.Lines, "\n"))
+	off := 0
 	for lineNum, line := range ctx.Lines {
-		// Check if line has trailing whitespace
-		if len(line) == 0 {
-			continue
-		}
-
-		// Only spaces and tabs are trailing whitespace (they are what Fix removes). The last
-		// byte must not be classified with unicode.IsSpace: it may be the final byte of a
-		// multi-byte character (0x85, 0xA0), and \v / \f are not removed by Fix.
-		lastChar := line[len(line)-1]
-		if lastChar == ' ' || lastChar == '\t' {
-			// Find the column where trailing whitespace starts
-			trimmed := strings.TrimRight(line, " \t")
-			column := len(trimmed) + 1
-
+		// Spaces and tabs that end a line are trailing whitespace when they are layout:
+		// code, or the tail of a -- comment. Blanks that end a line inside a multi-line
+		// string literal, quoted identifier or block comment are content of that construct.
+		end := trailingBlankStart(line, m[off:off+len(line)])
+		off += len(line) + 1
+		if end < len(line) {
 			violations = append(violations, linter.Violation{
 				Rule:       r.ID(),
 				RuleName:   r.Name(),
 				Severity:   r.Severity(),
 				Message:    "Line has trailing whitespace",
-				Location:   models.Location{Line: lineNum + 1, Column: column},
+				Location:   models.Location{Line: lineNum + 1, Column: end + 1},
 				Line:       line,
 				Suggestion: "Remove trailing spaces or tabs from the end of the line",
 				CanAutoFix: true,
@@ -95,20 +89,37 @@ func (r *TrailingWhitespaceRule) Check(ctx *linter.Context) ([]linter.Violation,
 	return violations, nil
 }
 
+// trailingBlankStart returns the offset at which the removable trailing run of spaces and
+// tabs of line begins (len(line) when there is none). m holds the lexical class of every
+// byte of the line.
+func trailingBlankStart(line string, m []linter.LexClass) int {
+	end := len(line)
+	for end > 0 && (line[end-1] == ' ' || line[end-1] == '\t') &&
+		(m[end-1] == linter.LexCode || m[end-1] == linter.LexLineComment) {
+		end--
+	}
+	return end
+}
+
 // Fix removes trailing whitespace from all lines in the SQL content.
 //
 // Processes the content line by line, trimming spaces and tabs from the right side
-// of each line. Newlines are preserved. The violations parameter is ignored since
-// the fix is applied uniformly to all lines.
+// of each line. Newlines are preserved. Blanks that end a line inside a multi-line
+// string literal, quoted identifier or block comment belong to that construct and are
+// kept. The violations parameter is ignored since the fix is applied uniformly to all
+// lines.
 //
 // This operation is safe to apply automatically and doesn't change SQL semantics.
 //
 // Returns the fixed content with all trailing whitespace removed, and nil error.
 func (r *TrailingWhitespaceRule) Fix(content string, violations []linter.Violation) (string, error) {
 	lines := strings.Split(content, "\n")
+	m := linter.LexMap(content)
 
+	off := 0
 	for i, line := range lines {
-		lines[i] = strings.TrimRight(line, " \t")
+		lines[i] = line[:trailingBlankStart(line, m[off:off+len(line)])]
+		off += len(line) + 1
 	}
 
 	return strings.Join(lines, "\n"), nil
